@@ -797,7 +797,7 @@ def rule_J(ctx):
     fo = ctx.prog.func(TRACK + '.operate')
     fn = absint.funcs(ctx, 'tracklib.core.track', dict(npstub.stubs()))
     NANV = float('nan')
-    fn['__globals__']['NAN'] = NANV
+    fn['__globals__']['NAN'] = float('nan')      # another object than the NaN values of the data
 
     def _exit(*a):
         raise orders.Raised('SystemExit', 'exit()')
